@@ -155,7 +155,7 @@ PROPS["C04"] = {
     "trusted_base": READER_TB,
     "assumptions": COMMON_ASSUME + ["caller buffers are non-empty", "callbacks read only from the reader they are given",
                                     "no earlier error on the same reader (DESIGN §7 N2)"],
-    "level_text": 'Kernel-checked: message_delivered - for every data message (any number of fragments, empty ones included, control frames interleaved anywhere, masked or not), every chunking of the transport (empty chunks, data together with io.EOF) and every sequence of positive caller buffer sizes, what Reader.Read hands out is a prefix of the concatenation of the unmasked fragment payloads; no error but the final io.EOF is possible; io.EOF is reached within (bytes + chunks + 1) Reads; then the whole message has been delivered, the transport stands exactly behind its last frame and the reader is reset like a new one. Built on C01 (chunk-independent header decoding), C02 (cipher = XOR at any offset) and a one-Read step invariant (Proofs/Reader.lean). With an OnIntermediate handler (Props/C04Cb.message_delivered_collect, the handler wsutil.ReadMessage installs): the same delivery, and when io.EOF is reached the handler has been called exactly once per interleaved control frame, in stream order, with that frame\'s opcode and exact unmasked payload (step_cb / reads_cb in Proofs/ReaderCb thread the handler\'s log through the stream invariant). With CheckUTF8 on: C07.text_message. PARTIAL in scope: reader without receive extension, transport not delivering its last bytes together with a failure; Discard: message_skipped / message_skipped_any - NextFrame then Discard from anywhere inside a message consumes exactly the rest of it (fragments and interleaved controls) for any chunking, CheckUTF8 on or off, no error, transport at the next message. The helper loops themselves: readAll_message (ioutil.ReadAll over the reader, with and without the collecting handler), readMessage_single / readMessage_fragmented (wsutil.ReadMessage on unfragmented and on fragmented non-text messages, CheckUTF8 on as in the helper: controls first, then the one message; text: C07.readMessage_single_text). fragmented text: C07.readMessage_fragmented_text). The ReadData family (ReadClientData, ReadServerText, ...): readData_single(_text), and over HISTORIES on one connection readData_after_history / readData_text_after_history (Props/C04ReadDataSkip, C08ReadData) - behind any number of pings and unwanted unfragmented messages in any order, exactly one pong per ping (identical payload, in order) has been written, nothing else, and the first wanted message is returned as if it had come first (text iff well-formed); C05ReadData / C16ReadData: an offending frame or a cut payload behind such a history. A FRAGMENTED wanted non-text message through ReadData with pings (0..125 bytes) and pongs between its fragments, behind any such history: C08ReadDataFrag.readData_fragmented_after_history (payloads concatenated, first opcode, no error, transport behind the message, exactly the pongs of the history then those of the pings between the fragments written) - C08Intermediate.readAll_message_pongs for the non-checking reader transported through Proofs/ReaderBinG (the strip simulation for any handler that ignores the UTF-8 fields). Fragmented UNWANTED messages (text or not) with pings and pongs between their fragments are history items too (C08DiscardFrag.loop_skip_frag, C08ReadDataHistory.loop_history2 and readData_*_after_any_history). A fragmented TEXT message as the wanted one (C08ReadDataFragText.readData_fragmented_text_after_any_history): delivered, with the pongs written, iff the whole payload is well-formed UTF-8 wherever the fragment boundaries fall - through the text simulation for any handler (Proofs/ReaderBinG2) and 'the control handler never reports io.EOF' (Proofs/HandlerEof). Close frames between fragments: stream oracle + exact correspondence (~5k quick / ~100k thorough cases), not a theorem.',
+    "level_text": 'Kernel-checked: message_delivered - for every data message (any number of fragments, empty ones included, control frames interleaved anywhere, masked or not), every chunking of the transport (empty chunks, data together with io.EOF) and every sequence of positive caller buffer sizes, what Reader.Read hands out is a prefix of the concatenation of the unmasked fragment payloads; no error but the final io.EOF is possible; io.EOF is reached within (bytes + chunks + 1) Reads; then the whole message has been delivered, the transport stands exactly behind its last frame and the reader is reset like a new one. Built on C01 (chunk-independent header decoding), C02 (cipher = XOR at any offset) and a one-Read step invariant (Proofs/Reader.lean). With an OnIntermediate handler (Props/C04Cb.message_delivered_collect, the handler wsutil.ReadMessage installs): the same delivery, and when io.EOF is reached the handler has been called exactly once per interleaved control frame, in stream order, with that frame\'s opcode and exact unmasked payload (step_cb / reads_cb in Proofs/ReaderCb thread the handler\'s log through the stream invariant). With CheckUTF8 on: C07.text_message. PARTIAL in scope: reader without receive extension, transport not delivering its last bytes together with a failure; Discard: message_skipped / message_skipped_any - NextFrame then Discard from anywhere inside a message consumes exactly the rest of it (fragments and interleaved controls) for any chunking, CheckUTF8 on or off, no error, transport at the next message. The helper loops themselves: readAll_message (ioutil.ReadAll over the reader, with and without the collecting handler), readMessage_single / readMessage_fragmented (wsutil.ReadMessage on unfragmented and on fragmented non-text messages, CheckUTF8 on as in the helper: controls first, then the one message; text: C07.readMessage_single_text). fragmented text: C07.readMessage_fragmented_text). The ReadData family (ReadClientData, ReadServerText, ...): readData_single(_text), and over HISTORIES on one connection readData_after_history / readData_text_after_history (Props/C04ReadDataSkip, C08ReadData) - behind any number of pings and unwanted unfragmented messages in any order, exactly one pong per ping (identical payload, in order) has been written, nothing else, and the first wanted message is returned as if it had come first (text iff well-formed); C05ReadData / C16ReadData: an offending frame or a cut payload behind such a history. A FRAGMENTED wanted non-text message through ReadData with pings (0..125 bytes) and pongs between its fragments, behind any such history: C08ReadDataFrag.readData_fragmented_after_history (payloads concatenated, first opcode, no error, transport behind the message, exactly the pongs of the history then those of the pings between the fragments written) - C08Intermediate.readAll_message_pongs for the non-checking reader transported through Proofs/ReaderBinG (the strip simulation for any handler that ignores the UTF-8 fields). Fragmented UNWANTED messages (text or not) with pings and pongs between their fragments are history items too (C08DiscardFrag.loop_skip_frag, C08ReadDataHistory.loop_history2 and readData_*_after_any_history). A fragmented TEXT message as the wanted one (C08ReadDataFragText.readData_fragmented_text_after_any_history): delivered, with the pongs written, iff the whole payload is well-formed UTF-8 wherever the fragment boundaries fall - through the text simulation for any handler (Proofs/ReaderBinG2) and the fact that the control handler never reports io.EOF (Proofs/HandlerEof). Close frames between fragments: stream oracle + exact correspondence (~5k quick / ~100k thorough cases), not a theorem.',
     "level_note": 'Trusted: Lean kernel, Spec/Stream.lean (oracle), Model/Reader.lean as a hand model tied by correspondence, harness.',
 }
 
